@@ -4,8 +4,26 @@
    complex is exactly the clique family, it contains the source with its names, it is well formed,
    and taking the flag complex again adds nothing.  growFlagComplex = rebuild: tested only. *)
 From Coq Require Import String ZArith Bool Arith List.
-From SV Require Import Names Rep Complex Homology Filtration Gen World Small Sweeps.
+From SV Require Import Names Rep Complex Homology Filtration Gen World Small Sweeps NamesFacts RepInv Shapes FlagExt.
 
 Theorem C11_flag_is_clique_complex_upto4_partial : forall c, In c complexes4 -> chk_flag (build c) = true.
 Proof. exact flag_upto4. Qed.
 Print Assumptions C11_flag_is_clique_complex_upto4_partial.
+
+(* EVERY COMPLEX: the flag complex of K has exactly K's points and edges (whatever else it contains
+   has order >= 2) and contains K with K's names, orders and faces *)
+Theorem C11_flag_contains_source_and_adds_only_higher_simplices :
+  forall hp src uid hp' r', flagComplex hp src uid = (hp', r', Ok tt) ->
+  sinv r' /\
+  (forall s, In s (simplices src false) ->
+     containsSimplex r' s = true /\ orderOf r' s = Ok (length (faces src s) - 1) /\
+     forall t, In t (faces r' s) <-> In t (faces src s)) /\
+  (forall s, containsSimplex r' s = true ->
+     In s (simplices src false) \/ exists k, orderOf r' s = Ok k /\ 2 <= k).
+Proof. exact flagComplex_contains_source. Qed.
+Print Assumptions C11_flag_contains_source_and_adds_only_higher_simplices.
+(* growFlagComplex likewise only adds simplices of order >= 2 and touches nothing that was there *)
+Theorem C11_grow_adds_only_higher_simplices :
+  forall r news r' x, sinv r -> growFlagComplex r news = (r', x) -> ext2 r r'.
+Proof. exact growFlagComplex_ext. Qed.
+Print Assumptions C11_grow_adds_only_higher_simplices.
